@@ -68,6 +68,7 @@ fn run_isolated_once(prop: &str, cases: &[String], timeout_ms: u64, mem_mb: u64)
                 dead = true;
             }
             if !dead {
+                let mut disconnected = false;
                 match rx.recv_timeout(Duration::from_millis(timeout_ms)) {
                     Ok(l) => {
                         let (_i, r) = l.split_once(' ').unwrap_or(("", ""));
@@ -77,9 +78,11 @@ fn run_isolated_once(prop: &str, cases: &[String], timeout_ms: u64, mem_mb: u64)
                         let _ = child.kill(); let _ = child.wait();
                         out.push("timeout".into()); next += 1; dead = true;
                     }
-                    Err(mpsc::RecvTimeoutError::Disconnected) => { dead = true; }
+                    Err(mpsc::RecvTimeoutError::Disconnected) => { dead = true; disconnected = true; }
                 }
-                if dead && out.len() == next {
+                // (a timeout has pushed its own outcome above; only a worker that died by itself is reported here —
+                //  testing `out.len() == next` also held after a timeout and marked the FOLLOWING case `abort signal9` unrun)
+                if disconnected {
                     // disconnected without reply: the worker died on this case
                     let st = child.wait().ok();
                     let code = st.map(|s| {
